@@ -877,6 +877,21 @@ def _packed_refs_key(st: os.stat_result) -> _PackedRefsKey:
     return (st.st_ino, st.st_dev, st.st_size, st.st_mtime_ns, st.st_ctime_ns)
 
 
+def _remove_empty_directories(path: bytes) -> None:
+    """Remove path, and the directories below it, as far as they are empty.
+
+    Directories that once held loose refs can stay behind, e.g. when those
+    refs were packed by another tool or when an update that would have
+    created the first ref in them did not go through. Such a leftover must
+    not be mistaken for a ref hierarchy that conflicts with a ref file of the
+    same name. Nothing happens if path is not a directory, and directories
+    that (still) contain files are left alone.
+    """
+    for root, _dirs, _files in os.walk(path, topdown=False):
+        with suppress(OSError):
+            os.rmdir(root)
+
+
 class DiskRefsContainer(RefsContainer):
     """Refs container that reads refs from disk."""
 
@@ -1258,6 +1273,7 @@ class DiskRefsContainer(RefsContainer):
         ensure_dir_exists(os.path.dirname(filename))
         f = GitFile(filename, "wb")
         try:
+            _remove_empty_directories(filename)
             f.write(SYMREF + other + b"\n")
             sha = self.follow(name)[-1]
             self._log(
@@ -1341,6 +1357,7 @@ class DiskRefsContainer(RefsContainer):
                 return True
 
             try:
+                _remove_empty_directories(filename)
                 f.write(new_ref + b"\n")
             except OSError:
                 f.abort()
@@ -1392,6 +1409,7 @@ class DiskRefsContainer(RefsContainer):
         self._check_packed_conflict(realname, filename)
         ensure_dir_exists(os.path.dirname(filename))
         with GitFile(filename, "wb") as f:
+            _remove_empty_directories(filename)
             if os.path.exists(filename) or realname in self.get_packed_refs():
                 f.abort()
                 return False
@@ -1463,7 +1481,11 @@ class DiskRefsContainer(RefsContainer):
             self._remove_packed_ref(name)
 
             if found:
-                os.remove(filename)
+                if os.path.isdir(filename) and not os.path.islink(filename):
+                    # not a ref file, at most a leftover directory
+                    _remove_empty_directories(filename)
+                else:
+                    os.remove(filename)
 
             self._log(
                 name,
